@@ -1501,3 +1501,480 @@ Proof.
   rewrite (conc_answers fl c fs qs sched t1 q r1 (or_introl Hq) H1), (conc_answers fl c fs qs sched t2 q r2 (or_introl Hq) H2).
   reflexivity.
 Qed.
+
+(* ------------------------------------------------------------------------------------------ *)
+(** * D. Deadlock freedom and termination of the concurrent protocol *)
+
+(** ** Shape of a thread: the innermost frame is active, every frame below it waits at [PCall]
+    for the level directly below its own.  Hence the mutexes held by the frames of one thread
+    have strictly increasing numbers from the innermost frame outwards (base < layouts < views). *)
+
+Fixpoint chain_wf (lvtop : level) (rest : list frame) : Prop :=
+  match rest with
+  | [] => True
+  | (lv', ph') :: rest' => ph' = PCall /\ sub lv' = Some lvtop /\ chain_wf lv' rest'
+  end.
+
+Definition wf_thread (th : thread) : Prop :=
+  match th with
+  | TRun _ [] => False
+  | TRun _ ((lv, ph) :: rest) => ph <> PCall /\ chain_wf lv rest
+  | _ => True
+  end.
+
+Definition WF (s : cstate) : Prop := forall t th, nth_error (cthr s) t = Some th -> wf_thread th.
+
+Lemma start_not_call fl : start fl <> PCall.
+Proof. unfold start. destruct (locked_fast fl); discriminate. Qed.
+
+Lemma ret_wf q r rest : (forall lv, chain_wf lv rest -> True) ->
+  match rest with [] => True | (lv', ph') :: rest' => ph' = PCall /\ chain_wf lv' rest' end ->
+  wf_thread (ret q r rest).
+Proof.
+  intros _ H. unfold ret. destruct rest as [|[lv' ph'] rest'].
+  - destruct q; exact I.
+  - destruct H as [-> C]. destruct r; simpl; split; auto; discriminate.
+Qed.
+
+Lemma chain_wf_tail lv rest : chain_wf lv rest ->
+  match rest with [] => True | (lv', ph') :: rest' => ph' = PCall /\ chain_wf lv' rest' end.
+Proof. destruct rest as [|[lv' ph'] rest']; simpl; tauto. Qed.
+
+Lemma tstep_wf fl c fs p th p' th' a :
+  wf_thread th -> tstep fl c fs p th = Some (p', th', a) -> wf_thread th'.
+Proof.
+  intros W H. destruct th as [q st|q r|q r]; simpl in H; try discriminate.
+  - destruct st as [|[lv ph] rest]; try discriminate. destruct W as [Hc C].
+    pose proof (chain_wf_tail _ _ C) as Ct.
+    destruct ph as [| | |hit| | | |sb|r].
+    + inversion H; subst. simpl. split; [discriminate|exact C].
+    + inversion H; subst. simpl. split; [discriminate|exact C].
+    + destruct (cache_read fl lv p).
+      * inversion H; subst. apply ret_wf; auto.
+      * inversion H; subst. simpl. split; [discriminate|exact C].
+    + destruct hit.
+      * inversion H; subst. apply ret_wf; auto.
+      * inversion H; subst. simpl. split; [discriminate|exact C].
+    + inversion H; subst. simpl. split; [discriminate|exact C].
+    + destruct (cache_read fl lv p).
+      * inversion H; subst. simpl. split; [discriminate|exact C].
+      * destruct lv; inversion H; subst; simpl.
+        -- split; [discriminate|exact C].
+        -- split; [apply start_not_call|]. repeat split; auto.
+        -- split; [apply start_not_call|]. repeat split; auto.
+    + congruence.
+    + destruct (build fl c fs lv sb p). inversion H; subst. simpl. split; [discriminate|exact C].
+    + inversion H; subst. apply ret_wf; auto.
+  - destruct (handout fl c (p, r)). inversion H; subst. exact I.
+Qed.
+
+Lemma cstep_WF fl c fs s t s' : WF s -> cstep fl c fs s t = Some s' -> WF s'.
+Proof.
+  intros W H. unfold cstep in H.
+  destruct (nth_error (cthr s) t) as [th|] eqn:Ht; try discriminate.
+  destruct (tstep fl c fs (cp s) th) as [[[p' th'] a]|] eqn:Hs; try discriminate.
+  match type of H with (if ?e then _ else _) = _ => destruct e eqn:En end; try discriminate.
+  inversion H; subst; clear H. intros j thj Hj. simpl in Hj.
+  destruct (Nat.eq_dec j t) as [E|E].
+  - subst j. apply nth_set_nth_eq in Hj. subst. eapply tstep_wf; eauto.
+  - rewrite nth_set_nth_neq in Hj by assumption. eapply W; eauto.
+Qed.
+
+Lemma WF_init fl qs : WF (cinit fl qs).
+Proof.
+  intros t th H. simpl in H. rewrite nth_error_map in H.
+  destruct (nth_error qs t) as [q|]; try discriminate. inversion H; subst.
+  destruct q as [|l|l [|x v]]; simpl; auto; split; auto; apply start_not_call.
+Qed.
+
+Lemma WF_reach fl c fs qs sched : WF (crun fl c fs sched (cinit fl qs)).
+Proof.
+  apply (crun_inv WF). intros; eapply cstep_WF; eauto. apply WF_init.
+Qed.
+
+(** ** The lock order *)
+
+Lemma sub_lock lv lv' : sub lv' = Some lv -> lock_of lv' = S (lock_of lv).
+Proof. destruct lv'; simpl; intros H; inversion H; reflexivity. Qed.
+
+Lemma chain_wf_above lv rest : chain_wf lv rest ->
+  forall f, In f rest -> lock_of lv < lock_of (fst f) /\ snd f = PCall.
+Proof.
+  revert lv. induction rest as [|[lv' ph'] rest' IH]; intros lv C f Hin; simpl in *; try contradiction.
+  destruct C as (-> & Hs & C). apply sub_lock in Hs. destruct Hin as [<-|Hin].
+  - simpl. split; [lia|reflexivity].
+  - destruct (IH _ C f Hin). split; [lia|assumption].
+Qed.
+
+(** Whoever holds mutex [lk] either holds it in its active (innermost) frame, or its active
+    frame works on a mutex with a smaller number. *)
+Lemma holder_cases th lk : wf_thread th ->
+  holdsW lk th = true \/ holdsR lk th = true ->
+  exists q lv ph rest, th = TRun q ((lv, ph) :: rest) /\
+    ((lock_of lv = lk /\ (phaseW ph || phaseR ph) = true) \/ lock_of lv < lk).
+Proof.
+  intros W H. destruct th as [q st|q r|q r]; try (destruct H; discriminate).
+  destruct st as [|[lv ph] rest]; try contradiction. destruct W as [_ C].
+  exists q, lv, ph, rest. split; auto.
+  rewrite holdsW_cons, holdsR_cons in H. cbn [fst snd] in H.
+  assert (Hrest : forall g, existsb (fun f : frame => Nat.eqb (lock_of (fst f)) lk && g (snd f)) rest = true ->
+                            lock_of lv < lk).
+  { intros g E. apply existsb_exists in E as (f & Hin & Hf). apply andb_true_iff in Hf as [Hf _].
+    apply Nat.eqb_eq in Hf. destruct (chain_wf_above _ _ C f Hin). lia. }
+  destruct H as [H|H]; apply orb_true_iff in H as [H|H].
+  - apply andb_true_iff in H as [H1 H2]. apply Nat.eqb_eq in H1. left. rewrite H2. auto.
+  - right. apply (Hrest phaseW). exact H.
+  - apply andb_true_iff in H as [H1 H2]. apply Nat.eqb_eq in H1. left. rewrite H2. split; auto. apply orb_true_r.
+  - right. apply (Hrest phaseR). exact H.
+Qed.
+
+(** No lock upgrade, no recursive locking: the mutex a thread is about to RLock or Lock is not
+    held by that thread itself.  (The model's enabledness test looks at the OTHER threads only,
+    so this is what makes it the enabledness of sync.RWMutex.) *)
+Lemma no_self_lock th lk : wf_thread th ->
+  next_act th = ARLock lk \/ next_act th = ALock lk ->
+  holdsW lk th = false /\ holdsR lk th = false.
+Proof.
+  intros W H. destruct th as [q st|q r|q r]; try (split; reflexivity).
+  destruct st as [|[lv ph] rest]; try contradiction. destruct W as [_ C].
+  unfold next_act, top in H. cbn [stack_of act_of] in H.
+  assert (E : lock_of lv = lk /\ phaseW ph = false /\ phaseR ph = false).
+  { destruct ph; destruct H as [H|H]; try discriminate; inversion H; auto. }
+  destruct E as (<- & E1 & E2).
+  rewrite holdsW_cons, holdsR_cons. cbn [fst snd]. rewrite E1, E2, !andb_false_r. cbn [orb].
+  split; apply not_true_false; intros X; apply existsb_exists in X as (f & Hin & Hf);
+    apply andb_true_iff in Hf as [Hf _]; apply Nat.eqb_eq in Hf;
+    destruct (chain_wf_above _ _ C f Hin); lia.
+Qed.
+
+(** The step function agrees with [next_act]. *)
+Lemma tstep_total fl c fs p q lv ph rest : ph <> PCall ->
+  exists p' th', tstep fl c fs p (TRun q ((lv, ph) :: rest)) = Some (p', th', act_of lv ph).
+Proof.
+  intros Hc. cbn [tstep]. destruct ph as [| | |[i|]| | | |sb|r]; try congruence; cbn [act_of]; eauto.
+  - destruct (cache_read fl lv p); eauto.
+  - destruct (cache_read fl lv p); [eauto|destruct lv; eauto].
+  - destruct (build fl c fs lv sb p). eauto.
+Qed.
+
+Lemma tstep_act fl c fs p th p' th' a :
+  tstep fl c fs p th = Some (p', th', a) -> a = next_act th.
+Proof.
+  intros H. destruct th as [q st|q r|q r]; simpl in H; try discriminate.
+  - destruct st as [|[lv ph] rest]; try discriminate. unfold next_act, top. cbn [stack_of].
+    destruct ph as [| | |[i|]| | | |sb|r]; try discriminate; cbn [act_of];
+      try (inversion H; reflexivity).
+    + destruct (cache_read fl lv p); inversion H; reflexivity.
+    + destruct (cache_read fl lv p); [|destruct lv]; inversion H; reflexivity.
+    + destruct (build fl c fs lv sb p). inversion H; reflexivity.
+  - destruct (handout fl c (p, r)). inversion H. reflexivity.
+Qed.
+
+(** ** Enabledness *)
+
+Lemma others_ok_false chk : forall l t, others_ok chk t l = false ->
+  exists j th, j <> t /\ nth_error l j = Some th /\ chk th = false.
+Proof.
+  induction l as [|x l IH]; intros t H; [destruct t; discriminate|].
+  destruct t as [|t]; simpl in H.
+  - assert (E : exists y, In y l /\ chk y = false).
+    { clear -H. induction l as [|y l IH]; simpl in H; try discriminate.
+      destruct (chk y) eqn:Ey; simpl in H.
+      - destruct (IH H) as (z & A & B). exists z. split; [right|]; auto.
+      - exists y. split; [left|]; auto. }
+    destruct E as (y & Hin & Hy). apply In_nth_error in Hin as [j Hj].
+    exists (S j), y. repeat split; auto.
+  - destruct (chk x) eqn:Ex; simpl in H.
+    + destruct (IH t H) as (j & th & A & B & C). exists (S j), th. repeat split; auto.
+    + exists 0, x. repeat split; auto.
+Qed.
+
+Lemma pend_ok_false pend lk t : forall l i, pend_ok pend lk t i l = false ->
+  exists j th, i + j <> t /\ nth_error l j = Some th /\ wantsW lk th = true.
+Proof.
+  induction l as [|x l IH]; intros i H; simpl in H; try discriminate.
+  apply andb_false_iff in H as [H|H].
+  - apply orb_false_iff in H as [H1 H2]. apply Nat.eqb_neq in H1.
+    apply negb_false_iff in H2. apply andb_true_iff in H2 as [_ H2].
+    exists 0, x. repeat split; auto. lia.
+  - destruct (IH _ H) as (j & th & A & B & C). exists (S j), th. repeat split; auto. lia.
+Qed.
+
+Lemma pend_ok_none lk t : forall l i, pend_ok (fun _ => false) lk t i l = true.
+Proof. induction l as [|x l IH]; intros i; simpl; auto. rewrite IH, orb_true_r. reflexivity. Qed.
+
+Lemma cstep_wp_none fl c fs s t : cstep_wp (fun _ => false) fl c fs s t = cstep fl c fs s t.
+Proof.
+  unfold cstep_wp, cstep. destruct (nth_error (cthr s) t); auto.
+  destruct (tstep fl c fs (cp s) t0) as [[[p' th'] [|lk|lk]]|]; auto.
+  rewrite pend_ok_none, andb_true_r. reflexivity.
+Qed.
+
+(** A step under writer preference is a step of the plain semantics, with the same result. *)
+Lemma cstep_wp_cstep pend fl c fs s t s' :
+  cstep_wp pend fl c fs s t = Some s' -> cstep fl c fs s t = Some s'.
+Proof.
+  unfold cstep_wp, cstep. destruct (nth_error (cthr s) t); auto.
+  destruct (tstep fl c fs (cp s) t0) as [[[p' th'] [|lk|lk]]|]; auto.
+  destruct (others_ok (fun o => negb (holdsW lk o)) t (cthr s)); simpl; auto.
+  destruct (pend_ok pend lk t 0 (cthr s)); auto. discriminate.
+Qed.
+
+(** a thread whose next step needs no lock is enabled *)
+Lemma free_enabled pend fl c fs s t q lv ph rest :
+  nth_error (cthr s) t = Some (TRun q ((lv, ph) :: rest)) -> ph <> PCall -> act_of lv ph = ANone ->
+  exists s', cstep_wp pend fl c fs s t = Some s'.
+Proof.
+  intros Ht Hc Ha. destruct (tstep_total fl c fs (cp s) q lv ph rest Hc) as (p' & th' & Hs).
+  unfold cstep_wp. rewrite Ht, Hs, Ha. eauto.
+Qed.
+
+Section Progress.
+  Variables (pend : nat -> bool) (fl : flavour) (c : bool) (fs : tfs) (s : cstate).
+  Hypothesis W : WF s.
+
+  Definition can_step : Prop := exists t s', cstep_wp pend fl c fs s t = Some s'.
+
+  (** If threads working on mutexes below [n] guarantee progress, then so does a holder of a
+      mutex up to [n]: it is either in its critical section (its next step needs no lock) or it
+      works on a smaller mutex. *)
+  Lemma holder_progress n :
+    (forall t q lv ph rest, nth_error (cthr s) t = Some (TRun q ((lv, ph) :: rest)) -> lock_of lv < n -> can_step) ->
+    forall j thj k, nth_error (cthr s) j = Some thj -> k <= n ->
+      holdsW k thj = true \/ holdsR k thj = true -> can_step.
+  Proof.
+    intros IH j thj k Hj Hk Hh.
+    destruct (holder_cases thj k (W _ _ Hj) Hh) as (q & lv & ph & rest & -> & [[E Hp]|Hlt]).
+    - destruct (W _ _ Hj) as [Hc _].
+      assert (Ha : act_of lv ph = ANone) by (destruct ph; try reflexivity; discriminate Hp).
+      destruct (free_enabled pend fl c fs s j q lv ph rest Hj Hc Ha) as [s' Hs']. exists j, s'. exact Hs'.
+    - apply (IH j q lv ph rest Hj). lia.
+  Qed.
+
+  Lemma progress_lt : forall n t q lv ph rest,
+    nth_error (cthr s) t = Some (TRun q ((lv, ph) :: rest)) -> lock_of lv < n -> can_step.
+  Proof.
+    induction n as [|n IH]; intros t q lv ph rest Ht Hn; [lia|].
+    assert (Hk : lock_of lv <= n) by lia.
+    pose proof (holder_progress n IH) as HP.
+    (* a thread about to Lock: blocked only by a holder *)
+    assert (HL : forall t q lv rest, nth_error (cthr s) t = Some (TRun q ((lv, PLock) :: rest)) ->
+                                      lock_of lv <= n -> can_step).
+    { clear t q lv ph rest Ht Hn Hk. intros t q lv rest Ht Hk.
+      destruct (tstep_total fl c fs (cp s) q lv PLock rest ltac:(discriminate)) as (p' & th' & Hs).
+      cbn [act_of] in Hs.
+      destruct (others_ok (fun o => negb (holdsW (lock_of lv) o) && negb (holdsR (lock_of lv) o)) t (cthr s)) eqn:En.
+      - exists t. unfold cstep_wp. rewrite Ht, Hs, En. eauto.
+      - apply others_ok_false in En as (j & thj & Hne & Hj & Hchk).
+        apply (HP j thj (lock_of lv) Hj Hk).
+        apply andb_false_iff in Hchk as [X|X]; apply negb_false_iff in X; auto. }
+    destruct (W _ _ Ht) as [Hc _].
+    destruct ph as [| | |hit| | | |sb|r]; try congruence;
+      try (destruct (free_enabled pend fl c fs s t q lv _ rest Ht Hc eq_refl) as [s' Hs']; exists t, s'; exact Hs').
+    - (* RLock: blocked by a writer holding the mutex, or by a pending writer *)
+      destruct (tstep_total fl c fs (cp s) q lv PRLock rest Hc) as (p' & th' & Hs). cbn [act_of] in Hs.
+      destruct (others_ok (fun o => negb (holdsW (lock_of lv) o)) t (cthr s)) eqn:En.
+      + destruct (pend_ok pend (lock_of lv) t 0 (cthr s)) eqn:Ep.
+        * exists t. unfold cstep_wp. rewrite Ht, Hs, En, Ep. cbn [andb]. eauto.
+        * apply pend_ok_false in Ep as (j & thj & _ & Hj & Hw).
+          unfold wantsW, top in Hw. destruct thj as [q' [|[lv' ph'] rest']|q' r'|q' r']; try discriminate.
+          cbn [stack_of] in Hw. destruct ph'; try discriminate. apply Nat.eqb_eq in Hw.
+          apply (HL j q' lv' rest' Hj). lia.
+      + apply others_ok_false in En as (j & thj & Hne & Hj & Hchk).
+        apply negb_false_iff in Hchk. apply (HP j thj (lock_of lv) Hj Hk). auto.
+    - apply (HL t q lv rest Ht Hk).
+  Qed.
+
+  Lemma forallb_false_nth {A} (f : A -> bool) : forall l, forallb f l = false ->
+    exists j x, nth_error l j = Some x /\ f x = false.
+  Proof.
+    induction l as [|x l IH]; simpl; try discriminate. intros H.
+    destruct (f x) eqn:E; simpl in H.
+    - destruct (IH H) as (j & y & A1 & A2). exists (S j), y. auto.
+    - exists 0, x. auto.
+  Qed.
+
+  (** Progress: a state in which not every thread has returned has an enabled step. *)
+  Lemma progress : all_done s = false -> can_step.
+  Proof.
+    intros H. apply forallb_false_nth in H as (t & th & Ht & Hth).
+    destruct th as [q st|q r|q r]; try discriminate.
+    - destruct st as [|[lv ph] rest].
+      + exact (False_ind _ (W _ _ Ht)).
+      + apply (progress_lt (S (lock_of lv)) t q lv ph rest Ht). lia.
+    - exists t. unfold cstep_wp. rewrite Ht. cbn [tstep]. destruct (handout fl c (cp s, r)). eauto.
+  Qed.
+
+  Lemma no_deadlock_wf : (forall t, cstep_wp pend fl c fs s t = None) -> all_done s = true.
+  Proof.
+    intros H. destruct (all_done s) eqn:E; auto.
+    destruct (progress E) as (t & s' & Hs). rewrite H in Hs. discriminate.
+  Qed.
+End Progress.
+
+Theorem no_deadlock_wp pend fl c fs qs sched :
+  (forall t, cstep_wp pend fl c fs (crun fl c fs sched (cinit fl qs)) t = None) ->
+  all_done (crun fl c fs sched (cinit fl qs)) = true.
+Proof. apply no_deadlock_wf. apply WF_reach. Qed.
+
+Theorem no_deadlock fl c fs qs sched :
+  (forall t, cstep fl c fs (crun fl c fs sched (cinit fl qs)) t = None) ->
+  all_done (crun fl c fs sched (cinit fl qs)) = true.
+Proof.
+  intros H. apply (no_deadlock_wp (fun _ => false)). intros t. rewrite cstep_wp_none. apply H.
+Qed.
+
+Theorem no_upgrade fl c fs qs sched t th lk :
+  nth_error (cthr (crun fl c fs sched (cinit fl qs))) t = Some th ->
+  next_act th = ARLock lk \/ next_act th = ALock lk ->
+  holdsW lk th = false /\ holdsR lk th = false.
+Proof. intros Ht. apply no_self_lock. eapply WF_reach; eauto. Qed.
+
+(** ** Termination: every step decreases the measure *)
+
+Lemma ret_msr q r rest : thread_msr (ret q r rest) <= S (stack_msr rest).
+Proof.
+  unfold ret. destruct rest as [|[lv' ph'] rest'].
+  - destruct q; simpl; lia.
+  - destruct ph'; simpl; try lia. destruct r; simpl; unfold frame_msr; simpl; lia.
+Qed.
+
+Lemma start_msr fl n : phase_msr n (start fl) <= 7 + 7 * n.
+Proof. unfold start. destruct (locked_fast fl); simpl; lia. Qed.
+
+Lemma tstep_msr fl c fs p th p' th' a :
+  tstep fl c fs p th = Some (p', th', a) -> thread_msr th' < thread_msr th.
+Proof.
+  intros H. destruct th as [q st|q r|q r]; simpl in H; try discriminate.
+  - destruct st as [|[lv ph] rest]; try discriminate.
+    pose proof (ret_msr q) as R.
+    cbn [thread_msr stack_msr]. unfold frame_msr at 1. cbn [fst snd].
+    destruct ph as [| | |hit| | | |sb|r]; try discriminate.
+    + inversion H; subst. simpl. lia.
+    + inversion H; subst. simpl. lia.
+    + destruct (cache_read fl lv p); inversion H; subst.
+      * specialize (R (Ok n) rest). simpl. lia.
+      * simpl. lia.
+    + destruct hit; inversion H; subst.
+      * specialize (R (Ok n) rest). simpl. lia.
+      * simpl. lia.
+    + inversion H; subst. simpl. lia.
+    + destruct (cache_read fl lv p).
+      * inversion H; subst. simpl. lia.
+      * destruct lv; inversion H; subst; cbn [thread_msr stack_msr]; unfold frame_msr; cbn [fst snd lock_of].
+        -- simpl. lia.
+        -- pose proof (start_msr fl 0). simpl in *. lia.
+        -- pose proof (start_msr fl 1). simpl in *. lia.
+    + destruct (build fl c fs lv sb p). inversion H; subst. simpl. lia.
+    + inversion H; subst. specialize (R r rest). simpl. lia.
+  - destruct (handout fl c (p, r)). inversion H; subst. simpl. lia.
+Qed.
+
+Lemma total_set_nth : forall l t a x,
+  nth_error l t = Some x -> thread_msr a < thread_msr x -> total_msr (set_nth t a l) < total_msr l.
+Proof.
+  induction l as [|y l IH]; intros [|t] a x H Hlt; simpl in *; try discriminate.
+  - inversion H; subst. lia.
+  - specialize (IH t a x H Hlt). lia.
+Qed.
+
+Lemma cstep_msr fl c fs s t s' :
+  cstep fl c fs s t = Some s' -> total_msr (cthr s') < total_msr (cthr s).
+Proof.
+  intros H. unfold cstep in H.
+  destruct (nth_error (cthr s) t) as [th|] eqn:Ht; try discriminate.
+  destruct (tstep fl c fs (cp s) th) as [[[p' th'] a]|] eqn:Hs; try discriminate.
+  match type of H with (if ?e then _ else _) = _ => destruct e eqn:En end; try discriminate.
+  inversion H; subst; clear H. simpl. eapply total_set_nth; eauto. eapply tstep_msr; eauto.
+Qed.
+
+Lemma thread_init_msr fl q : thread_msr (thread_init fl q) <= 22.
+Proof.
+  destruct q as [|l|l [|x v]]; simpl; unfold frame_msr; simpl.
+  - pose proof (start_msr fl 0). simpl in *. lia.
+  - pose proof (start_msr fl 1). simpl in *. lia.
+  - lia.
+  - pose proof (start_msr fl 2). simpl in *. lia.
+Qed.
+
+Lemma cinit_msr fl qs : total_msr (cthr (cinit fl qs)) <= 22 * length qs.
+Proof.
+  simpl. induction qs as [|q qs IH]; simpl; [lia|].
+  pose proof (thread_init_msr fl q). lia.
+Qed.
+
+(** Steps taken plus what is left never exceeds what was left at the beginning. *)
+Lemma csteps_msr fl c fs : forall sched s,
+  csteps fl c fs sched s + total_msr (cthr (crun fl c fs sched s)) <= total_msr (cthr s).
+Proof.
+  induction sched as [|t sched IH]; intros s; simpl; [lia|].
+  unfold crun_step. destruct (cstep fl c fs s t) as [s'|] eqn:E.
+  - specialize (IH s'). apply cstep_msr in E. fold (crun fl c fs sched s'). lia.
+  - apply IH.
+Qed.
+
+Theorem bounded_steps fl c fs qs sched :
+  csteps fl c fs sched (cinit fl qs) <= 22 * length qs.
+Proof.
+  pose proof (csteps_msr fl c fs sched (cinit fl qs)). pose proof (cinit_msr fl qs). lia.
+Qed.
+
+(** ** Every reachable state can be driven to the end *)
+
+Lemma finish_from pend fl c fs : forall m s, WF s -> total_msr (cthr s) <= m ->
+  exists sched', all_done (crun fl c fs sched' s) = true /\
+                 crun_wp pend fl c fs sched' s = crun fl c fs sched' s.
+Proof.
+  induction m as [|m IH]; intros s W Hm.
+  - destruct (all_done s) eqn:E.
+    + exists []. split; [exact E|reflexivity].
+    + destruct (progress pend fl c fs s W E) as (t & s' & Hs).
+      apply cstep_wp_cstep in Hs. apply cstep_msr in Hs. lia.
+  - destruct (all_done s) eqn:E.
+    + exists []. split; [exact E|reflexivity].
+    + destruct (progress pend fl c fs s W E) as (t & s' & Hs).
+      pose proof (cstep_wp_cstep _ _ _ _ _ _ _ Hs) as Hs2.
+      assert (W' : WF s') by (eapply cstep_WF; eauto).
+      destruct (IH s' W') as (sched' & A & B). { apply cstep_msr in Hs2. lia. }
+      exists (t :: sched'). simpl. unfold crun_step, crun_wp_step. rewrite Hs, Hs2.
+      split; [exact A|exact B].
+Qed.
+
+Lemma crun_app fl c fs a b s : crun fl c fs (a ++ b) s = crun fl c fs b (crun fl c fs a s).
+Proof. unfold crun. apply fold_left_app. Qed.
+
+(** The continuation consists of steps that are enabled even under writer preference with the
+    pending writers [pend]. *)
+Theorem can_finish_wp pend fl c fs qs sched :
+  exists sched',
+    all_done (crun fl c fs (sched ++ sched') (cinit fl qs)) = true /\
+    crun_wp pend fl c fs sched' (crun fl c fs sched (cinit fl qs)) = crun fl c fs (sched ++ sched') (cinit fl qs).
+Proof.
+  destruct (finish_from pend fl c fs _ (crun fl c fs sched (cinit fl qs)) (WF_reach fl c fs qs sched) (le_n _))
+    as (sched' & A & B).
+  exists sched'. rewrite crun_app. split; assumption.
+Qed.
+
+Lemma all_done_nth s t th : all_done s = true -> nth_error (cthr s) t = Some th ->
+  exists q r, th = TDone q r.
+Proof.
+  intros H Ht. unfold all_done in H. rewrite forallb_forall in H.
+  specialize (H th (nth_error_In _ _ Ht)). destruct th; try discriminate. eauto.
+Qed.
+
+Theorem can_finish fl c fs qs sched :
+  exists sched', let s := crun fl c fs (sched ++ sched') (cinit fl qs) in
+    all_done s = true /\
+    (inj_key fl = true -> forall t q, nth_error qs t = Some q ->
+       exists r, nth_error (cthr s) t = Some (TDone q r) /\ obs_of (cp s) r = creq_spec fs q).
+Proof.
+  destruct (can_finish_wp (fun _ => false) fl c fs qs sched) as (sched' & A & _).
+  exists sched'. cbv zeta. split; [exact A|]. intros Hk t q Hq.
+  pose proof (conc_reqs fl c fs qs (sched ++ sched')) as R.
+  assert (Ht : exists th, nth_error (cthr (crun fl c fs (sched ++ sched') (cinit fl qs))) t = Some th).
+  { destruct (nth_error (cthr (crun fl c fs (sched ++ sched') (cinit fl qs))) t) as [th|] eqn:E; eauto.
+    rewrite <- R, nth_error_map, E in Hq. discriminate. }
+  destruct Ht as [th Ht]. destruct (all_done_nth _ _ _ A Ht) as (q' & r & ->).
+  destruct (conc_answers_full fl c fs qs (sched ++ sched') t q' r Hk Ht) as [Hq' Ho].
+  assert (q' = q) by congruence. subst q'. exists r. split; assumption.
+Qed.
